@@ -21,10 +21,21 @@ func infra(format string, a ...interface{}) {
 	panic(infraError(fmt.Sprintf(format, a...)))
 }
 
-const (
-	repoDir  = "/repo"
-	verifDir = "/verif"
+// repoDir is the repository the checks rebuild from; VSIM_REPO overrides it
+// for background sweeps that must not see temporary edits of /repo. verifDir
+// is where evidence and replay files go (the working directory's root when
+// run from a snapshot).
+var (
+	repoDir  = envOr("VSIM_REPO", "/repo")
+	verifDir = envOr("VSIM_VERIF", "/verif")
 )
+
+func envOr(name, def string) string {
+	if v := os.Getenv(name); v != "" {
+		return v
+	}
+	return def
+}
 
 var scratchDirs []string
 
